@@ -66,6 +66,9 @@ pub struct Analysis<'a> {
     pub collect_ids: HashMap<usize, u64>,
     pub tls_gone_ops: HashSet<usize>,
     pub id_of: HashMap<u32, u64>,
+    /// every span id a node was delivered with (several only for enter_on_poll adapters: one
+    /// local span per poll, all carrying the adapter's name)
+    pub ids_of: HashMap<u32, Vec<u64>>,
     pub id_conflicts: Vec<String>,
     pub delivered: Vec<Delivered>,
     /// model.recs index -> delivered indices matched to it
@@ -370,6 +373,7 @@ impl<'a> Analysis<'a> {
             collect_ids,
             tls_gone_ops,
             id_of: HashMap::new(),
+            ids_of: HashMap::new(),
             id_conflicts: vec![],
             delivered: vec![],
             matched: vec![vec![]; model.recs.len()],
@@ -382,10 +386,28 @@ impl<'a> Analysis<'a> {
     }
 
     fn match_records(&mut self) {
+        // ids read off the handles at creation
+        for o in &self.hist.ops {
+            for (n, id) in &o.learned {
+                self.id_of.entry(*n).or_insert(*id);
+                let l = self.ids_of.entry(*n).or_default();
+                if !l.contains(id) {
+                    l.push(*id);
+                }
+            }
+        }
         // learn ids
         for b in &self.hist.batches {
             for r in &b.recs {
                 if let Some(n) = parse_node(&r.name, 'n') {
+                    let l = self.ids_of.entry(n).or_default();
+                    if !l.contains(&r.span_id) {
+                        l.push(r.span_id);
+                    }
+                    if self.model.poll_nodes.contains(&n) {
+                        self.id_of.entry(n).or_insert(r.span_id);
+                        continue;
+                    }
                     match self.id_of.get(&n) {
                         None => {
                             self.id_of.insert(n, r.span_id);
@@ -405,6 +427,10 @@ impl<'a> Analysis<'a> {
                 if let Some(ExpRet::Ctx(Some(cm))) = self.model.rets.get(&node_id(i, None)) {
                     if let PRef::Node(n) = cm.span {
                         self.id_of.entry(n).or_insert(*sid);
+                        let l = self.ids_of.entry(n).or_default();
+                        if !l.contains(sid) {
+                            l.push(*sid);
+                        }
                     }
                 }
             }
@@ -422,21 +448,26 @@ impl<'a> Analysis<'a> {
                 if let Some(n) = node {
                     if let Some(cands) = by_key.get(&(r.trace_id, n)) {
                         // exact parent match on an unmatched expectation first
-                        let pid = |p: &PRef| -> Option<u64> {
+                        // Some(true) parent matches, Some(false) differs, None parent id unknown
+                        let pm = |p: &PRef| -> Option<bool> {
                             match p {
-                                PRef::Remote(x) => Some(*x),
-                                PRef::Node(n) => self.id_of.get(n).copied(),
+                                PRef::Remote(x) => Some(*x == r.parent_id),
+                                PRef::Node(n) => match self.ids_of.get(n).map(|l| l.contains(&r.parent_id)) {
+                                    // one span per poll: an instance that was not delivered is unknown
+                                    Some(false) if self.model.poll_nodes.contains(n) => None,
+                                    x => x,
+                                },
                             }
                         };
                         for &c in cands {
-                            if self.matched[c].is_empty() && pid(&self.model.recs[c].parent) == Some(r.parent_id) {
+                            if self.matched[c].is_empty() && pm(&self.model.recs[c].parent) == Some(true) {
                                 exp = Some(c);
                                 break;
                             }
                         }
                         if exp.is_none() {
                             for &c in cands {
-                                if self.matched[c].is_empty() && pid(&self.model.recs[c].parent).is_none() {
+                                if self.matched[c].is_empty() && pm(&self.model.recs[c].parent).is_none() {
                                     exp = Some(c);
                                     break;
                                 }
@@ -468,6 +499,17 @@ impl<'a> Analysis<'a> {
         match p {
             PRef::Remote(x) => Some(*x),
             PRef::Node(n) => self.id_of.get(n).copied(),
+        }
+    }
+
+    /// does `id` identify the span/remote parent `p`? None = the span's id was never observed
+    pub fn is_id_of(&self, p: &PRef, id: u64) -> Option<bool> {
+        match p {
+            PRef::Remote(x) => Some(*x == id),
+            PRef::Node(n) => match self.ids_of.get(n).map(|l| l.contains(&id)) {
+                Some(false) if self.model.poll_nodes.contains(n) => None,
+                x => x,
+            },
         }
     }
 
